@@ -16,7 +16,13 @@ theorem Sig.out_mem_in {s : Sig} (hok : s.ok = true) (hc : s.callable = true) {l
     (hl : l ∈ s.outBrands) : l ∈ s.inBrands := by
   simp only [Sig.ok, hc, Bool.not_true, Bool.false_or, Sig.flowOk, Bool.and_eq_true,
     List.all_eq_true] at hok
-  simpa using hok.1 l hl
+  simpa using hok.1.1 l hl
+
+theorem Sig.single {s : Sig} (hok : s.ok = true) (hc : s.callable = true) {l l' : String}
+    (hl : l ∈ s.brands) (hl' : l' ∈ s.brands) : l = l' := by
+  simp only [Sig.ok, hc, Bool.not_true, Bool.false_or, Sig.flowOk, Bool.and_eq_true,
+    Sig.singleBrand, List.all_eq_true] at hok
+  simpa using hok.2 l hl l' hl'
 
 /-- The caller cannot choose: two instantiations that agree on the lifetimes of the inputs yield the
 same output brands. -/
@@ -31,6 +37,13 @@ theorem call_same_brand {s : Sig} (hok : s.ok = true) (hc : s.callable = true) (
     {b : Brand} (hb : b ∈ s.outBrands.map σ) : ∃ l ∈ s.inBrands, σ l = b := by
   obtain ⟨l, hl, rfl⟩ := List.mem_map.mp hb
   exact ⟨l, Sig.out_mem_in hok hc hl, rfl⟩
+
+/-- A call involves one arena only: all branded inputs and all branded results have the same brand. -/
+theorem call_single_arena {s : Sig} (hok : s.ok = true) (hc : s.callable = true) (σ : Subst)
+    {b b' : Brand} (hb : b ∈ s.brands.map σ) (hb' : b' ∈ s.brands.map σ) : b = b' := by
+  obtain ⟨l, hl, rfl⟩ := List.mem_map.mp hb
+  obtain ⟨l', hl', rfl⟩ := List.mem_map.mp hb'
+  rw [Sig.single hok hc hl hl']
 
 structure Inv (st : State) : Prop where
   held_active : ∀ b ∈ st.held, b ∈ st.active
